@@ -259,7 +259,18 @@ def Eng.insert (e : Eng) (cells : List Cell) : Eng × Bool :=
 without looking at DELETE_BIT, so tombstones match as well (an UPDATE resurrects a deleted row, a
 second DELETE decrements row_count again) -/
 def rowsWhere (e : Eng) (wcol : Nat) (wval : Cell) : List (TKey × Rec) :=
-  (sortedKeys e.st.map).filter (fun x => cellAt x.2 wcol = wval)
+  let scan := (sortedKeys e.st.map).filter (fun x => cellAt x.2 wcol = wval)
+  -- `WHERE <pk> = literal` takes the primary-key point-lookup path first: the index entry leads to ONE
+  -- row (tombstones of the same key value, whose entries were removed, are not visited); only when
+  -- the index has no entry for the value does the statement fall back to the scan
+  if e.pkCol = some wcol then
+    match (e.uidx.find? (fun x => x.1 == wcol)).bind (fun x => ixGet x.2 wval) with
+    | some rid =>
+      match (sortedKeys e.st.map).find? (fun x => x.1.2 == rid) with
+      | some row => [row]
+      | none => scan
+    | none => scan
+  else scan
 
 /-- UPDATE t SET scol = sval WHERE wcol = wval  (scol not a unique column) -/
 def Eng.update (e : Eng) (wcol : Nat) (wval : Cell) (scol : Nat) (sval : Cell) : Eng × Nat :=
